@@ -55,6 +55,7 @@ type c05Case struct {
 	Ord        string            `json:"ord"`    // "", "order", "rorder"
 	OrdCol     string            `json:"ordcol"` // "count" or "op": the select column the rows are ordered by
 	Lim        int               `json:"lim"`    // -1: no limit clause
+	SetCopy    bool              `json:"setcopy"` // "set $w = v" and OP($w) instead of OP(v): a line without v gets $w = the literal "v"
 }
 
 type c05Result struct {
@@ -153,7 +154,11 @@ func c05Query(c c05Case, outfile string) string {
 	if c.WithCount {
 		sel = append(sel, "g", "count($line)")
 	}
-	sel = append(sel, c.Op+"(v)")
+	opcol := c.Op + "(v)"
+	if c.SetCopy {
+		opcol = c.Op + "($w)"
+	}
+	sel = append(sel, opcol)
 	q := "select " + strings.Join(sel, ",")
 	if c.Format == "default" {
 		q += " from T"
@@ -161,9 +166,12 @@ func c05Query(c c05Case, outfile string) string {
 	if c.Wh {
 		q += " where v >= 0"
 	}
+	if c.SetCopy {
+		q += " set $w = v"
+	}
 	q += " group by g"
 	if c.Ord != "" {
-		col := c.Op + "(v)"
+		col := opcol
 		if c.OrdCol == "count" {
 			col = "count($line)"
 		}
